@@ -712,7 +712,6 @@ func ruleNoent(c *Ctx, id string) {
 	_ = V
 }
 
-
 // statusEscapes: the idx-th result of fn is used by some caller as more than
 // the operand of a comparison (stored, passed on, returned, merged): it can
 // become a reply's status.  A status that every caller only compares with a
